@@ -1035,6 +1035,36 @@ impl World {
         }
         Some(acc / covered as u128)
     }
+    /// Reference for the vAMM's time-weighted spot price over `interval`: q*D/b at each reserve snapshot, weighted by
+    /// the time the snapshot was in effect inside [now - interval, now] (the covered period if the history is shorter)
+    pub fn ref_spot_twap(&self, v: usize, interval: u64) -> Option<u128> {
+        let snaps = self.vamm_snapshots(v);
+        if snaps.is_empty() {
+            return None;
+        }
+        let now = self.now();
+        let start = now.saturating_sub(interval);
+        let d = self.d;
+        let value = |q: u128, b: u128| -> Option<u128> { if b == 0 { None } else { q.checked_mul(d).map(|x| x / b) } };
+        let (mut acc, mut covered, mut upper) = (0u128, 0u64, now);
+        for (q, b, ts) in snaps.iter().rev() {
+            let lower = (*ts).max(start);
+            if upper > lower {
+                let dt = upper - lower;
+                acc = acc.checked_add(value(*q, *b)?.checked_mul(dt as u128)?)?;
+                covered += dt;
+            }
+            if *ts <= start {
+                break;
+            }
+            upper = lower;
+        }
+        if covered == 0 {
+            let (q, b, _) = snaps.last()?;
+            return value(*q, *b);
+        }
+        Some(acc / covered as u128)
+    }
     /// raw engine position records: storage key suffix -> bytes
     pub fn raw_positions(&self) -> BTreeMap<Vec<u8>, Vec<u8>> {
         let mut p = contract_prefix(self.engine.as_str());
